@@ -138,13 +138,9 @@ mod protected {
                 {
                     let mut arr = HeapBytes::default();
                     let mut idx: usize = 0;
-                    let size_hint = seq.size_hint().unwrap_or(1);
-                    arr.resize(size_hint, 0);
 
                     while let Some(elem) = seq.next_element()? {
-                        if idx > arr.len() {
-                            arr.resize(idx, 0);
-                        }
+                        arr.resize(idx + 1, 0);
                         arr[idx] = elem;
                         idx += 1;
                     }
@@ -182,28 +178,25 @@ mod protected {
                 where
                     A: SeqAccess<'de>,
                 {
-                    let mut arr = HeapBytes::gen_locked().expect("couldn't create locked bytes");
+                    // collect first, lock once at the end (resizing a locked
+                    // region reallocates and re-locks on every call)
+                    let mut arr = HeapBytes::default();
                     let mut idx: usize = 0;
-                    let size_hint = seq.size_hint().unwrap_or(1);
-                    arr.resize(size_hint, 0);
 
                     while let Some(elem) = seq.next_element()? {
-                        if idx > arr.len() {
-                            arr.resize(idx, 0);
-                        }
+                        arr.resize(idx + 1, 0);
                         arr[idx] = elem;
                         idx += 1;
                     }
 
-                    Ok(arr)
+                    arr.mlock().map_err(Error::custom)
                 }
 
                 fn visit_bytes<E>(self, v: &[u8]) -> Result<Self::Value, E>
                 where
                     E: Error,
                 {
-                    Ok(HeapBytes::from_slice_into_locked(v)
-                        .expect("couldn't copy slice into locked bytes"))
+                    HeapBytes::from_slice_into_locked(v).map_err(Error::custom)
                 }
             }
 
@@ -229,20 +222,25 @@ mod protected {
                 where
                     A: SeqAccess<'de>,
                 {
-                    let mut arr = HeapByteArray::<LENGTH>::gen_locked()
-                        .expect("couldn't create locked bytes");
+                    // self-describing formats give no size hint: count the
+                    // elements instead of trusting it
+                    let mut arr = HeapByteArray::<LENGTH>::new_byte_array();
                     let mut idx: usize = 0;
-                    let size_hint = seq.size_hint().unwrap_or(0);
-                    if size_hint != LENGTH {
-                        Err(Error::invalid_length(size_hint, &stringify!(LENGTH)))
-                    } else {
-                        while let Some(elem) = seq.next_element()? {
+
+                    while let Some(elem) = seq.next_element()? {
+                        if idx < LENGTH {
                             arr[idx] = elem;
                             idx += 1;
+                        } else {
+                            return Err(Error::invalid_length(idx + 1, &stringify!(LENGTH)));
                         }
-
-                        Ok(arr)
                     }
+
+                    if idx != LENGTH {
+                        return Err(Error::invalid_length(idx, &stringify!(LENGTH)));
+                    }
+
+                    arr.mlock().map_err(Error::custom)
                 }
 
                 fn visit_bytes<E>(self, v: &[u8]) -> Result<Self::Value, E>
@@ -252,8 +250,7 @@ mod protected {
                     if v.len() != LENGTH {
                         Err(Error::invalid_length(v.len(), &stringify!(LENGTH)))
                     } else {
-                        Ok(HeapByteArray::<LENGTH>::from_slice_into_locked(v)
-                            .expect("couldn't copy slice into locked bytes"))
+                        HeapByteArray::<LENGTH>::from_slice_into_locked(v).map_err(Error::custom)
                     }
                 }
             }
